@@ -41,3 +41,4 @@ CFG = {'level': 'exploration',
                  'ref/refmodpos.PlainImportPath is a subset of the valid import paths',
                  'a hang is only reported when the single-case replay also exceeds its cap (driver)']}
 CFG['level_text'] += " The four lexer messages are anchored: the position must be at the '/*', the newline, the unexpected character, or the opening quote of the unterminated string they name, and is never absent."
+CFG['level_text'] += ' What a top-level `module X` line names is read from the syntax-only tree by the harness itself; when that is a plain import path the strict parser must report exactly it.'
